@@ -1102,6 +1102,87 @@ pub fn c12_input(c: &mut Ctx, fam: Fam, b: &[u8], class: &str) {
     }
 }
 
+/// One ill-formed sequence written at *every* byte offset of a long, otherwise well-formed text field
+/// (and of a UTF-8-flagged payload): a validator that works in blocks, chunks or growth steps of any
+/// size up to the field length is exercised at every one of its internal boundaries, whatever they
+/// are. A lean loop (blocking decoder; the poll decoder on a sample); anything accepted goes through
+/// the full walker path of `c12_input`.
+fn c12_offset_sweep(c: &mut Ctx, w: usize, n: usize, layer: &str) {
+    const SEQS: [&[u8]; 3] = [b"\xed\xa0\x80", b"\xe0\x80\x80", b"\xf4\x90\x80\x80"];
+    let small = matches!(layer, "miri" | "vg");
+    let (n_str, n_pay) = if layer == "miri" {
+        (96usize, 160usize)
+    } else if small {
+        (300, 400)
+    } else if layer == "asan" {
+        (20_000, 40_000)
+    } else if c.thorough {
+        (65_535, 400_003)
+    } else {
+        (65_535, 131_075)
+    };
+    let hosts: Vec<(Fam, RP, &'static str)> = vec![
+        (Fam::V3, RP::Publish { dup: false, qos: 0, retain: false, topic: vec![b'a'; n_str], pid: None, props: Vec::new(), payload: Vec::new() }, "topic"),
+        (Fam::V5, RP::Publish { dup: false, qos: 0, retain: false, topic: b"t".to_vec(), pid: None, props: vec![(0x01, PV::Byte(1))], payload: vec![b'a'; n_pay] }, "payload"),
+        (Fam::V5, RP::Connack { sp: false, code: 0, props: vec![(0x1F, PV::Str(vec![b'r'; n_str * 3 / 5]))] }, "reason-string"),
+        (
+            Fam::V5,
+            RP::Publish { dup: false, qos: 1, retain: false, topic: b"t".to_vec(), pid: Some(7), props: vec![(0x26, PV::Pair(b"k".to_vec(), vec![b'v'; n_str / 2]))], payload: b"p".to_vec() },
+            "user-property-value",
+        ),
+    ];
+    for (fam, rp, what) in hosts {
+        let fr = ref_encode(fam, &rp, &Spelling::default());
+        let mut buf = fr.bytes();
+        // the long run of filler bytes is the field
+        let filler = match what {
+            "topic" | "payload" => b'a',
+            "reason-string" => b'r',
+            _ => b'v',
+        };
+        let lo = match buf.windows(8).position(|x| x.iter().all(|b| *b == filler)) {
+            Some(p) => p,
+            None => continue,
+        };
+        let hi = lo + buf[lo..].iter().take_while(|b| **b == filler).count();
+        // the unmodified host must be accepted (otherwise the sweep shows nothing)
+        if !matches!(dec_block(fam, &buf), DecOut::Pkt(_)) {
+            c.harness_error(format!("offset-sweep host {} is not accepted", what));
+            continue;
+        }
+        let mut k = 0u64;
+        for p in lo..hi {
+            if p % n != w {
+                continue;
+            }
+            for seq in SEQS {
+                if p + seq.len() > hi {
+                    continue;
+                }
+                let saved = [buf[p], buf[p + 1], buf[p + 2], buf[p + seq.len() - 1]];
+                buf[p..p + seq.len()].copy_from_slice(seq);
+                k += 1;
+                let accepted = match guard(|| dec_block(fam, &buf)) {
+                    Ok(DecOut::Pkt(_)) => true,
+                    Ok(_) => false,
+                    Err(_) => true, // let the full path report the panic
+                };
+                let accepted_poll = (k % 257 == 0 || accepted) && matches!(guard(|| dec_poll_bytes(fam, &buf)), Ok((Drive::Done(Ok(_)), _)) | Err(_));
+                if accepted || accepted_poll {
+                    c12_input(c, fam, &buf, "offset-sweep");
+                }
+                buf[p] = saved[0];
+                buf[p + 1] = saved[1];
+                buf[p + 2] = saved[2];
+                buf[p + seq.len() - 1] = saved[3];
+            }
+        }
+        c.evals(k);
+        c.distinct_direct += k;
+        c.countn(&format!("offset-sweep.{}", what), k);
+    }
+}
+
 pub fn c12(ctx: &mut Ctx, layer: &str) {
     let n_in: usize = match layer {
         "miri" => if ctx.thorough { 3_000 } else { 90 },
@@ -1115,7 +1196,8 @@ pub fn c12(ctx: &mut Ctx, layer: &str) {
             }
         }
     };
-    wl::par(ctx, |_w, n, c, r| {
+    wl::par(ctx, |w, n, c, r| {
+        c12_offset_sweep(c, w, n, layer);
         for fam in [Fam::V3, Fam::V5] {
             let mut rr = r.clone();
             // validator-aimed frames: every text position carries hostile text in turn
